@@ -5,6 +5,7 @@ package verifharness
 
 import (
 	"encoding/binary"
+	"time"
 	"io"
 	"net"
 	"net/http"
@@ -182,7 +183,7 @@ type dohServer struct {
 
 func newDoHServer(answer func(id int, name string, qtype int) ([]byte, int)) *dohServer {
 	s := &dohServer{answer: answer}
-	s.Server = httptest.NewServer(http.HandlerFunc(func(w http.ResponseWriter, req *http.Request) {
+	s.Server = httptest.NewUnstartedServer(http.HandlerFunc(func(w http.ResponseWriter, req *http.Request) {
 		body, _ := io.ReadAll(req.Body)
 		req.Body.Close()
 		id, name, qtype, ok := wParseQuery(body)
@@ -201,6 +202,10 @@ func newDoHServer(answer func(id int, name string, qtype int) ([]byte, int)) *do
 		w.Header().Set("content-type", "application/dns-message")
 		w.Write(resp)
 	}))
+	// the library makes a new HTTP client (and TCP connection) for every DNS query and leaves it idle: close idle
+	// connections quickly, or long runs exhaust file descriptors / ephemeral ports (an environment problem, not a finding)
+	s.Server.Config.IdleTimeout = 30 * time.Millisecond
+	s.Server.Start()
 	return s
 }
 
@@ -251,4 +256,18 @@ func decodeWName(b []byte) string {
 		p += 1 + l
 	}
 	return strings.Join(labels, ".")
+}
+
+// envError: failures of the test environment itself (descriptor / port exhaustion, overload), never findings.
+func envError(err error) bool {
+	if err == nil {
+		return false
+	}
+	m := err.Error()
+	for _, k := range []string{"too many open files", "cannot assign requested address", "connection refused", "connection reset", "giving up after", "i/o timeout", "context deadline exceeded", "no such host", "EOF"} {
+		if strings.Contains(m, k) {
+			return true
+		}
+	}
+	return false
 }
